@@ -68,6 +68,14 @@ def finish(pid, tier, level, results, t0, explanation, assumptions, outside, ext
     violations = [r for r in results if r.get('verdict') == 'violation']
     inconcl = [r for r in results if r.get('verdict') not in ('violation', 'holds')]
     holds = [r for r in results if r.get('verdict') == 'holds']
+    # thorough tier only: a configuration whose job ran out of its wall-time budget was not explored to the end; it is
+    # reported as such (NOTE line, evidence) and is not part of the claim — it is neither a success nor a defect of the
+    # check.  Every other inconclusive outcome (non-reproducing counterexample, solver unknown, unsupported use, ...)
+    # still makes the check exit 2, and the quick tier treats a time-out as inconclusive as well.
+    unfinished = []
+    if tier == 'thorough' and holds:
+        unfinished = [r for r in inconcl if str(r.get('reason', '')).startswith('job timed out')]
+        inconcl = [r for r in inconcl if r not in unfinished]
     known_lines = []
     for r in results:
         for kh in r.get('known_hits', []) or []:
@@ -106,6 +114,7 @@ def finish(pid, tier, level, results, t0, explanation, assumptions, outside, ext
         'configurations': len(results),
         'configurations_holding': len(holds),
         'configurations_inconclusive': len(inconcl),
+        'configurations_not_completed_within_budget': [r.get('spec', {}).get('params') for r in unfinished],
         'solver_time_s': round(solver_s, 1),
         'known_findings_refound': known_lines,
         'outside_the_claim': outside,
@@ -135,6 +144,9 @@ def finish(pid, tier, level, results, t0, explanation, assumptions, outside, ext
         for r in inconcl:
             print(f"INCONCLUSIVE property={pid} config={r.get('spec', {}).get('params')} reason={r.get('reason')}")
         return 2
+    for r in unfinished:
+        print(f"NOTE property={pid} configuration not completed within its time budget (not claimed): "
+              f"{r.get('spec', {}).get('params')}")
     print(f'OK property={pid} tier={tier}: {len(holds)} configurations hold within their bounds '
           f'({queries} queries, solver {solver_s:.0f}s, {replays_ok} traces replayed on the real code)')
     return 0
